@@ -152,7 +152,7 @@ class AtomsEngine(Engine):
             what = "sp" if what == "atom" else "atom"
         if allow_invalid and rng.random() < 0.3:
             name = self._near_miss(rng, name)
-        return {"c": c, "op": what, "name": name}
+        return {"c": c, "op": what, "name": name, **({"kw": True} if rng.random() < 0.2 else {})}
 
     def _fault(self, rng, op: dict) -> dict:
         at = rng.choice(["open", "readline", "readline"])
@@ -290,6 +290,7 @@ class AtomsEngine(Engine):
         if kind == "atten":
             self._atten(ctx, op)
             return
+        self._kw = bool(op.get("kw"))
         self._lookup(ctx, kind, op["name"], op.get("fault") if top else None,
                      op.get("preempt") if top else None)
 
@@ -297,9 +298,9 @@ class AtomsEngine(Engine):
     def _call(self, kind, name):
         import scippneutron.atoms as atoms
 
-        if kind == "sp":
-            return atoms.ScatteringParams.for_isotope(name)
-        return atoms.Atom.for_isotope(name)
+        f = atoms.ScatteringParams.for_isotope if kind == "sp" else atoms.Atom.for_isotope
+        # keyword and positional calls are different keys of an lru_cache
+        return f(isotope=name) if getattr(self, "_kw", False) else f(name)
 
     def _cache_info(self, kind):
         import scippneutron.atoms as atoms
